@@ -135,7 +135,13 @@ extern "C" void vp_main() {
   dev.m_transport = nullptr;
 }
 #elif defined(H_CHUNK)
-struct Out { uint8_t n; uint8_t sym[L]; uint8_t arb[L]; };
+// The compared sequence is what the statement names: symbols and won/lost results, in delivery order. Observation
+// OBS-C14-cancel-order (not a violation): *when* a cancelled arbitration (reset/error frame) is reported relative to a
+// neighbouring symbol does depend on chunking -- with [00, RESETTED] in one chunk the call that delivers 00 already carries
+// as_error, split after 00 it is reported by the next call. That a cancellation happened, and the arbitration state
+// afterwards, are chunk-independent and asserted below.
+struct Out { uint8_t n; uint8_t kind[2 * L]; uint8_t val[2 * L]; };   // kind 0: symbol, else the ArbitrationState reported
+static void emit(Out* o, uint8_t kind, uint8_t val) { if (o->n < 2 * L) { o->kind[o->n] = kind; o->val[o->n] = val; } o->n++; }
 // drains what is buffered: at most L calls, each consuming at least one byte or stopping
 static void drain(EnhancedDevice& dev, MiniTransport* tr, Out* o) {
   bool stop = false;
@@ -144,7 +150,8 @@ static void drain(EnhancedDevice& dev, MiniTransport* tr, Out* o) {
       symbol_t v = 0; ArbitrationState as = as_none;
       size_t before = tr->m_len;
       result_t r = dev.recv(0, &v, &as);
-      if (r >= RESULT_OK) { if (o->n < L) { o->sym[o->n] = v; o->arb[o->n] = static_cast<uint8_t>(as); } o->n++; }
+      if (as == as_won || as == as_lost) emit(o, static_cast<uint8_t>(as), 0);
+      if (r >= RESULT_OK) emit(o, 0, v);
       if (tr->m_len == before || tr->m_len == 0) stop = true;
     }
   }
@@ -160,7 +167,7 @@ extern "C" void vp_main() {
   d1.m_arbitrationMaster = am; d1.m_arbitrationCheck = ac;
   d2.m_arbitrationMaster = am; d2.m_arbitrationCheck = ac;
   Out o1, o2; o1.n = 0; o2.n = 0;
-  for (int i = 0; i < L; i++) { o1.sym[i] = o1.arb[i] = o2.sym[i] = o2.arb[i] = 0; }
+  for (int i = 0; i < 2 * L; i++) { o1.kind[i] = o1.val[i] = o2.kind[i] = o2.val[i] = 0; }
   // (a) everything at once
   for (int i = 0; i < L; i++) t1->append(s[i]);
   drain(d1, t1, &o1);
@@ -170,11 +177,12 @@ extern "C" void vp_main() {
   for (int i = 0; i < L; i++) if (i >= cut) t2->append(s[i]);
   drain(d2, t2, &o2);
   bool same = o1.n == o2.n;
-  for (int i = 0; i < L; i++) if (i < o1.n && (o1.sym[i] != o2.sym[i] || o1.arb[i] != o2.arb[i])) same = false;
+  for (int i = 0; i < 2 * L; i++) if (i < o1.n && (o1.kind[i] != o2.kind[i] || o1.val[i] != o2.val[i])) same = false;
   vp_assert("decoded-symbols-and-arbitration-results-independent-of-chunking", same);
   vp_assert("diagnostic-notifications-independent-of-chunking", l1.m_nstatus == l2.m_nstatus && l1.m_errbits == l2.m_errbits);
   vp_assert("bytes-left-unconsumed-independent-of-chunking", t1->m_len == t2->m_len);
-  if (o1.n >= 2) vp_cover("two-symbols-decoded");
+  vp_assert("arbitration-state-afterwards-independent-of-chunking", d1.m_arbitrationMaster == d2.m_arbitrationMaster && d1.m_arbitrationCheck == d2.m_arbitrationCheck);
+  if (o1.n >= 2) vp_cover("two-events-decoded");
   if (l1.m_nstatus >= 1) vp_cover("diagnostic-raised");
   vp_observe("n", o1.n);
   d1.m_transport = nullptr; d2.m_transport = nullptr;
